@@ -32,6 +32,9 @@ pub struct Knobs {
     pub p_inject_neversent: u64,
     pub p_inject_dup_late: u64,
     pub p_ecmp_flip: u64,
+    /// start a burst of consecutive AddressInUse outcomes (TCP): per-mille chance per send, burst length up to this
+    pub p_inuse_burst: u64,
+    pub inuse_burst_max: u64,
 }
 
 /// what the simulator actually delivered (ground truth for the oracles)
@@ -61,6 +64,7 @@ pub struct SimEnv {
     pub round: usize,
     pub sent_seqs: std::collections::HashMap<u16, usize>,
     pub use_alt: bool,
+    pub burst_left: u64,
 }
 
 pub fn rand_addr(rng: &mut Rng, v6: bool) -> IpAddr {
@@ -108,6 +112,14 @@ impl Env for SimEnv {
         }
         if self.rng.chance(k.p_send_failed, 1000) {
             return SendO::Failed;
+        }
+        if self.burst_left > 0 {
+            self.burst_left -= 1;
+            return SendO::InUse;
+        }
+        if k.inuse_burst_max > 0 && self.rng.chance(k.p_inuse_burst, 1000) {
+            self.burst_left = self.rng.range(1, k.inuse_burst_max) - 1;
+            return SendO::InUse;
         }
         if self.rng.chance(k.p_send_inuse, 1000) {
             return SendO::InUse;
